@@ -1,7 +1,7 @@
 import json, os
 
 SPEC = {
-    "lean_modules": ["SemaModel.C04.Props", "SemaModel.C04.Tie"],
+    "lean_modules": ["SemaModel.C04.Props", "SemaModel.C04.Tie", "SemaModel.C04.Formula"],
     "lean_dirs": ["SemaModel/C04", "SemaModel/C08"],
     "harness": "c04",
     "harness_args": {
@@ -19,6 +19,8 @@ SPEC = {
             "batches on real shards are replayed line by line on the Lean model: bucket contents after every Flush, trained flags, "
             "ForEach id sets, Exists, and the canonical form of every warm flat-search answer over the harness-supplied distance table"),
     "required_theorems": [
+        # formula theorems (Formula.lean; notes/T1ext.md section 8): the hybrid expression generated from flat.go
+        "Sema.C04.C04_weight_default", "Sema.C04.C04_hybrid_formula", "Sema.C04.C04_hybrid_generated",
         "Sema.C04.C04_exact", "Sema.C04.C04_candidates", "Sema.C04.C04_no_closer_left_out", "Sema.C04.C04_sorted_prefix",
         "Sema.C04.C04_nodup", "Sema.C04.C04_order_indep", "Sema.C04.C04_hybrid", "Sema.C04.C04_enumerable",
         "Sema.C04.C04_forEach_complete", "Sema.C04.C04_warm_cold",
